@@ -55,6 +55,21 @@ pub enum Pos {
     ReturningColumn,
     DistinctOn,
     AsEnumType,
+    SearchSet,
+    CycleSet,
+    CycleUsing,
+    CycleColumn,
+    DoNothingOnColumn,
+    SchemaTableAlias,
+    DatabaseTableAlias,
+    JoinSubqueryAlias,
+    JoinLateralAlias,
+    CastAsQuoted,
+    UpdateFromTable,
+    InsertSelectColumn,
+    ColumnOfQualified,
+    OrderByQualified,
+    WindowPartition,
     // ---- schema statements
     CreateTableName,
     CreateTableSchema,
@@ -95,6 +110,12 @@ pub enum Pos {
     TypeCreateSchema,
     TypeAlterName,
     TypeDropName,
+    IndexTableSchema,
+    DropTableSchema,
+    AlterTableSchema,
+    FkRefTableSchema,
+    TruncateTableSchema,
+    DropIndexSchema,
 }
 
 pub const ALL_POS: &[Pos] = &[
@@ -171,6 +192,27 @@ pub const ALL_POS: &[Pos] = &[
     Pos::TypeCreateSchema,
     Pos::TypeAlterName,
     Pos::TypeDropName,
+    Pos::SearchSet,
+    Pos::CycleSet,
+    Pos::CycleUsing,
+    Pos::CycleColumn,
+    Pos::DoNothingOnColumn,
+    Pos::SchemaTableAlias,
+    Pos::DatabaseTableAlias,
+    Pos::JoinSubqueryAlias,
+    Pos::JoinLateralAlias,
+    Pos::CastAsQuoted,
+    Pos::UpdateFromTable,
+    Pos::InsertSelectColumn,
+    Pos::ColumnOfQualified,
+    Pos::OrderByQualified,
+    Pos::WindowPartition,
+    Pos::IndexTableSchema,
+    Pos::DropTableSchema,
+    Pos::AlterTableSchema,
+    Pos::FkRefTableSchema,
+    Pos::TruncateTableSchema,
+    Pos::DropIndexSchema,
 ];
 
 #[derive(Serialize, Deserialize, Clone, Debug, PartialEq, Eq, Hash)]
@@ -198,6 +240,13 @@ pub fn applicable(pos: Pos, d: Dialect) -> bool {
         TableFkName => d != Sqlite,        // the SQLite backend does not write constraint names of in-table foreign keys
         FkCreateName | FkCreateTable | FkCreateColumn | FkCreateRefTable | FkCreateRefColumn | FkDropName | FkDropTable => d != Sqlite,
         DropIndexTable => d == Mysql,      // only MySQL writes the table of DROP INDEX
+        SearchSet | CycleSet | CycleUsing | CycleColumn => d == Postgres, // only the Postgres backend writes SEARCH / CYCLE
+        DoNothingOnColumn => d == Mysql,                                   // `pk = pk` emulation; the others write DO NOTHING without columns
+        JoinLateralAlias => d != Sqlite,
+        UpdateFromTable => d != Mysql,
+        TruncateTableSchema => d != Sqlite,
+        FkRefTableSchema | DropIndexSchema => d == Postgres, // the other backends panic "Not supported" for qualified tables here
+        IndexTableSchema => d == Postgres, // MySQL / SQLite: documented panic "Not supported" for a schema-qualified index table
         WindowName | WindowOver => true,
         _ => true,
     }
@@ -207,7 +256,7 @@ pub fn applicable(pos: Pos, d: Dialect) -> bool {
 fn slots(pos: Pos, d: Dialect) -> usize {
     match pos {
         // MySQL do_nothing_on writes `pk = pk`; ON DUPLICATE KEY UPDATE c = VALUES(c) writes the column twice
-        Pos::OnConflictUpdateColumn => 2,
+        Pos::OnConflictUpdateColumn | Pos::DoNothingOnColumn => 2,
         // Postgres writes one `ALTER COLUMN <name>` per specification (TYPE .., SET NOT NULL)
         Pos::AlterModifyColumn if d == Dialect::Postgres => 2,
         _ => 1,
@@ -292,6 +341,62 @@ fn render(pos: Pos, d: Dialect, n: &str) -> String {
         ReturningColumn => q!(Query::delete().from_table(a("t")).returning(Query::returning().columns([a("c"), a(n)])).to_owned()),
         DistinctOn => q!(Query::select().distinct_on([a(n)]).column(a("c")).from(a("t")).to_owned()),
         AsEnumType => q!(Query::select().expr(Expr::val("v").as_enum(a(n))).to_owned()),
+        SearchSet | CycleSet | CycleUsing | CycleColumn => {
+            let (ss, cs, cu, cc) = match pos {
+                SearchSet => (n, "is_cycle", "path", "id"),
+                CycleSet => ("ord", n, "path", "id"),
+                CycleUsing => ("ord", "is_cycle", n, "id"),
+                _ => ("ord", "is_cycle", "path", n),
+            };
+            let cte = CommonTableExpression::new()
+                .query(Query::select().column(a("id")).from(a("t")).to_owned())
+                .table_name(a("w"))
+                .column(a("id"))
+                .to_owned();
+            let wc = WithClause::new()
+                .recursive(true)
+                .cte(cte)
+                .search(Search::new_from_order_and_expr(SearchOrder::BREADTH, SelectExpr { expr: Expr::col(a("id")).into(), alias: Some(a(ss).into_iden()), window: None }))
+                .cycle(Cycle::new_from_expr_set_using(Expr::col(a(cc)), a(cs), a(cu)))
+                .to_owned();
+            let w = Query::select().column(a("id")).from(a("w")).to_owned().with(wc);
+            with_backend!(d, b => w.to_string(b))
+        }
+        DoNothingOnColumn => q!(Query::insert()
+            .into_table(a("t"))
+            .columns([a("c")])
+            .values_panic([1.into()])
+            .on_conflict(OnConflict::column(a("k")).do_nothing_on([a(n)]).to_owned())
+            .to_owned()),
+        SchemaTableAlias => q!(Query::select().column(a("c")).from(TableRef::SchemaTableAlias(a("s").into_iden(), a("t").into_iden(), a(n).into_iden())).to_owned()),
+        DatabaseTableAlias => q!(Query::select()
+            .column(a("c"))
+            .from(TableRef::DatabaseSchemaTableAlias(a("db").into_iden(), a("s").into_iden(), a("t").into_iden(), a(n).into_iden()))
+            .to_owned()),
+        JoinSubqueryAlias => q!(Query::select()
+            .column(a("c"))
+            .from(a("t"))
+            .join_subquery(JoinType::LeftJoin, Query::select().column(a("c")).from(a("u")).to_owned(), a(n), Expr::col((a("t"), a("c"))).eq(1))
+            .to_owned()),
+        JoinLateralAlias => q!(Query::select()
+            .column(a("c"))
+            .from(a("t"))
+            .join_lateral(JoinType::LeftJoin, Query::select().column(a("c")).from(a("u")).to_owned(), a(n), Expr::col((a("t"), a("c"))).eq(1))
+            .to_owned()),
+        CastAsQuoted => with_backend!(d, b => Query::select().expr(SimpleExpr::from(Expr::val("v")).cast_as_quoted(a(n), b.quote())).to_owned().to_string(b)),
+        UpdateFromTable => q!(Query::update().table(a("t")).value(a("c"), 1).from(a(n)).and_where(Expr::col((a("t"), a("c"))).eq(2)).to_owned()),
+        InsertSelectColumn => q!(Query::insert()
+            .into_table(a("t"))
+            .columns([a("c")])
+            .select_from(Query::select().column(a(n)).from(a("u")).to_owned())
+            .unwrap()
+            .to_owned()),
+        ColumnOfQualified => q!(Query::select().expr(Expr::col((a("t"), a(n))).add(1)).from(a("t")).to_owned()),
+        OrderByQualified => q!(Query::select().column(a("c")).from(a("t")).order_by((a("t"), a(n)), Order::Desc).to_owned()),
+        WindowPartition => q!(Query::select()
+            .expr_window_as(Func::sum(Expr::col(a("c"))), WindowStatement::partition_by(a(n)).order_by(a("c"), Order::Asc).to_owned(), a("x"))
+            .from(a("t"))
+            .to_owned()),
         // ------------------------------------------------------------------ schema
         CreateTableName => {
             let t = Table::create().table(a(n)).col(ColumnDef::new(a("c")).integer()).to_owned();
@@ -436,6 +541,30 @@ fn render(pos: Pos, d: Dialect, n: &str) -> String {
         TypeCreateSchema => Type::create().as_enum((a(n), a("ty"))).values([a("x")]).to_string(PostgresQueryBuilder),
         TypeAlterName => Type::alter().name(a(n)).add_value(a("z")).to_string(PostgresQueryBuilder),
         TypeDropName => Type::drop().name(a("ty")).name(a(n)).to_string(PostgresQueryBuilder),
+        IndexTableSchema => {
+            let ix = Index::create().name("ix").table((a(n), a("t"))).col(a("c")).to_owned();
+            with_backend!(d, b => ix.to_string(b))
+        }
+        DropTableSchema => {
+            let t = Table::drop().table((a(n), a("t"))).to_owned();
+            with_backend!(d, b => t.to_string(b))
+        }
+        AlterTableSchema => {
+            let t = Table::alter().table((a(n), a("t"))).add_column(ColumnDef::new(a("c")).integer()).to_owned();
+            with_backend!(d, b => t.to_string(b))
+        }
+        FkRefTableSchema => {
+            let fk = ForeignKey::create().name("fk").from(a("t"), a("c")).to((a(n), a("p")), a("id")).to_owned();
+            with_backend!(d, b => fk.to_string(b))
+        }
+        DropIndexSchema => {
+            let ix = Index::drop().name("ix").table((a(n), a("t"))).to_owned();
+            with_backend!(d, b => ix.to_string(b))
+        }
+        TruncateTableSchema => {
+            let t = Table::truncate().table((a(n), a("t"))).to_owned();
+            with_backend!(d, b => t.to_string(b))
+        }
     }
 }
 
